@@ -17,21 +17,21 @@ rm -rf $S/verif; mv $S/verif.new $S/verif
 mkdir -p $S/verif/evidence $S/verif/replays
 git -C /repo worktree remove --force $S/repo 2>/dev/null; rm -rf $S/repo; git -C /repo worktree prune
 git -C /repo worktree add --detach $S/repo HEAD -q || exit 2
+HEADC=$(git -C /repo rev-parse HEAD)
 sed -i "s#/repo/falcon-rust#$S/repo/falcon-rust#" $S/verif/sim/Cargo.toml
 IDS="$@"; [ -z "$IDS" ] && IDS=$(ls /verif/seeded)
 missed=0
 for id in $IDS; do
     prop=${id%%-*}
-    git -C $S/repo reset -q --hard HEAD; git -C $S/repo clean -fdq
-    if ! git -C $S/repo apply /verif/seeded/$id/patch.diff 2>/dev/null; then
-        git -C $S/repo checkout -q b834386 -- falcon-rust/src/math.rs
-        if ! git -C $S/repo apply /verif/seeded/$id/patch.diff 2>/dev/null; then echo "$id: PATCH-DOES-NOT-APPLY"; missed=1; continue; fi
-    fi
+    git -C $S/repo reset -q --hard; git -C $S/repo clean -fdq; git -C $S/repo checkout -q --detach $HEADC 2>/dev/null
+    mode=$(/verif/tools/apply_seeded.sh $S/repo /verif/seeded/$id/patch.diff)
+    if [ "$mode" = FAIL ]; then echo "$id: PATCH-DOES-NOT-APPLY"; missed=1; continue; fi
+    extra=""; [ "$mode" = BASE ] && extra="VERIF_C08_NO_FORK=1"
     start=$(date +%s)
-    VERIF_ROOT=$S/verif $S/verif/check $prop $TIER > $S/$id.out 2>&1; rc=$?
+    env $extra VERIF_ROOT=$S/verif $S/verif/check $prop $TIER > $S/$id.out 2>&1; rc=$?
     end=$(date +%s)
     cls=$(grep -m1 "^  class:" $S/$id.out | cut -c10-120)
-    echo "$id: exit=$rc ($((end-start))s) $cls"
+    echo "$id: exit=$rc ($((end-start))s) [$mode] $cls"
     [ $rc -ne 1 ] && missed=1
 done
 git -C /repo worktree remove --force $S/repo 2>/dev/null
